@@ -291,6 +291,37 @@ fn replay_hist(c: &Value, r: &mut StdRng) -> Value {
     run_history(&tab, &evs, "mc", r)
 }
 
+/// replay of a logged event (checks/c17.py replay): the node table and the calls as recorded
+fn replay_table(c: &Value, r: &mut StdRng) -> Value {
+    let tab: Vec<TNode> = c["tbl"]
+        .as_array()
+        .expect("tbl")
+        .iter()
+        .map(|n| {
+            if n.get("a").is_some() {
+                TNode::A(from_jbytes(&n["a"]), n["rep"].as_str() == Some("small"))
+            } else {
+                TNode::P(n["l"].as_u64().unwrap() as usize - 1, n["r"].as_u64().unwrap() as usize - 1)
+            }
+        })
+        .collect();
+    let mut evs = Vec::new();
+    for o in c["ops"].as_array().expect("ops") {
+        let n = o["n"].as_u64().unwrap_or(1) as usize;
+        match o["op"].as_str().unwrap_or("") {
+            "alloc" => evs.push(Ev::Alloc(n.min(tab.len()))),
+            "visit" => evs.push(Ev::Call("visit", n - 1)),
+            "cached" => evs.push(Ev::Call("cached", n - 1)),
+            "plain" => evs.push(Ev::Call("plain", n - 1)),
+            "bytes" => evs.push(Ev::Call("bytes", n - 1)),
+            "bytes_br" => evs.push(Ev::Call("bytes_br", n - 1)),
+            "enc" => evs.push(Ev::Call("enc", n - 1)),
+            _ => {}
+        }
+    }
+    run_history(&tab, &evs, "replay", r)
+}
+
 // ---------------------------------------------------------------- currying
 fn ref_hash(x: &Sx) -> [u8; 32] {
     // independent reference (sha2 crate), iterative on the right spine
@@ -686,6 +717,7 @@ pub fn record(args: &Args) {
         for c in read_ndjson(cases) {
             match c["k"].as_str().unwrap_or("") {
                 "hist" => out.emit(&replay_hist(&c, &mut r)),
+                "table" => out.emit(&replay_table(&c, &mut r)),
                 "curry" => {
                     let p = Sx::from_json(&c["p"]);
                     let a: Vec<Sx> = c["args"].as_array().map(|v| v.iter().map(Sx::from_json).collect()).unwrap_or_default();
